@@ -769,6 +769,8 @@ def add_assign(M, ctx, r, s):
 def add_m(M, ctx, a, b):
     if isinstance(a, StringV):
         a.data.extend(as_str(M, b).bytes()); return a
+    if isinstance(a, (Ref, BoxV)): a = M.rdd(a)
+    if isinstance(b, (Ref, BoxV)) and not isinstance(a, StringV): b = M.rdd(b)
     if isinstance(a, (int,)) or is_sym(a):
         return M.binop_t('Add', a, b, type_head(ctx.self_ty or 'usize'))
     raise EncoderGap('Add on ' + type(a).__name__)
